@@ -95,6 +95,32 @@ def generate(ctx):
                 rng.shuffle(p)
                 perms.append(p)
         cases.append({"entries": es, "perms": perms})
+        if es and rng.random() < 0.5:
+            # a near-twin, hashed right after: same entries but for ONE field of one entry (the type with
+            # the perms kept, the perms, a target byte, a name byte) — whatever an id cache could be
+            # keyed on must include that field
+            tw = [dict(e) for e in es]
+            e = rng.choice(tw)
+            fld = rng.choice(["type", "type", "perms", "target", "name"])
+            if fld == "type":
+                # the type decides the place of the entry only next to a sibling that continues its name
+                # with a byte below '/': make sure there is one, in the pair hashed back to back
+                sib = hx(unhx(e["name"]) + rng.choice([b".", b"-", b" ", b".x"]))
+                if sib not in {x["name"] for x in tw}:
+                    tw.append({"name": sib, "type": "file", "perms": 0o100644, "target": hx(bytes(rng.randrange(256) for _ in range(20)))})
+                    cases.append({"entries": [dict(x) for x in tw], "perms": []})
+                e["type"] = rng.choice(["dir"] if e["type"] != "dir" else ["file", "rev"])
+            elif fld == "perms":
+                e["perms"] = rng.choice([p for p in CANON + [0o100600] if p != e["perms"]])
+            elif fld == "target":
+                t = bytearray(unhx(e["target"])); t[rng.randrange(20)] ^= 1 << rng.randrange(8); e["target"] = hx(bytes(t))
+            else:
+                nm = unhx(e["name"]) + b"x"
+                if hx(nm) not in {x["name"] for x in tw}:
+                    e["name"] = hx(nm)
+            p = list(range(len(tw)))
+            rng.shuffle(p)
+            cases.append({"entries": tw, "perms": [p]})
     return cases
 
 
